@@ -157,6 +157,9 @@ def family_sel(tier='quick'):
     out.append(_sel('floating-node', ['A', 'P0', 'P1', 'F'], [], ['A'], [('C1', 'A', ['P0', 'P1'])]))
     out.append(_sel('floating-chain', ['A', 'P0', 'P1', 'F', 'G'], [('F', 'G'), ('G', 'P1')], ['A'],
                     [('C1', 'A', ['P0', 'P1'])]))
+    # stand-alone start nodes (no edges at all) next to a chain and a choice
+    out.append(_sel('standalone-starts', ['A', 'B', 'P0', 'P1', 'L0', 'L1', 'L2'], [('A', 'B')], ['A', 'L0', 'L1', 'L2'],
+                    [('C1', 'B', ['P0', 'P1'])]))
     # no choices at all
     out.append(_sel('no-choice', ['A', 'B', 'C'], [('A', 'B'), ('B', 'C')], ['A'], []))
     # choice whose option activates two further choices
@@ -298,6 +301,17 @@ def family_inc(tier='quick'):
                     [('X', 'A'), ('X', 'B'), ('X', 'C'), ('P0', 'M'), ('P1', 'M'), ('M', 'T')], ['X'],
                     choices=[('C1', 'A', ['P0', 'P1']), ('C2', 'B', ['S', 'Q1']), ('C3', 'C', ['R0', 'R1'])],
                     incompat=[('S', 'T')], label='inc-all-options-derive-with-open-third-choice'))
+    # an option that activates a sub-choice all of whose options are incompatible with it (dead option), alone and
+    # with design variables that multiply the rows
+    for with_dv in (False, True):
+        out.append(Desc(['S', 'A0', 'A1', 'A2', 'B0', 'B1'], [], ['S'],
+                        choices=[('CA', 'S', ['A0', 'A1', 'A2']), ('CB', 'A1', ['B0', 'B1'])],
+                        incompat=[('A1', 'B0'), ('A1', 'B1')],
+                        dvs=[('dq', 'S', None, ['x', 'y']), ('dr', 'A2', None, ['u', 'v'])] if with_dv else (),
+                        label=f'inc-dead-option-all-suboptions-conflict-{int(with_dv)}'))
+    out.append(Desc(['S', 'A0', 'A1', 'M', 'B0', 'B1', 'T'], [('A1', 'M'), ('A1', 'T')], ['S'],
+                    choices=[('CA', 'S', ['A0', 'A1']), ('CB', 'M', ['B0', 'B1'])],
+                    incompat=[('T', 'B0'), ('T', 'B1')], label='inc-dead-option-via-derived-nodes'))
     # incompatibility with a start node / between two permanent nodes (infeasible space) / option vs permanent
     out.append(Desc(['A', 'B', 'P0', 'P1'], [('A', 'B')], ['A'], choices=[('C1', 'A', ['P0', 'P1'])],
                     incompat=[('A', 'P0')], label='inc-start-vs-option'))
@@ -406,6 +420,19 @@ def family_dvmet(tier='quick'):
     # split over several graphs so that ambiguity errors (undeclared both-possible) stay attributable
     for i in range(0, len(mets), 4):
         out.append(Desc(base_nodes, base_edges, ['A'], choices=ch, metrics=mets[i:i + 4], label=f'met-{i // 4}'))
+    # metrics with two parents: a permanent node and an option node (present in every architecture), two option nodes
+    # of the same choice (also in every architecture), an option node and a node below the other option
+    for i, (d, r, t) in enumerate(((-1, None, None), (1, 1.5, 'OBJECTIVE'), (-1, 1.5, 'CONSTRAINT'), (1, None, 'NONE'))):
+        out.append(Desc(base_nodes, base_edges + [('B', 'mA'), ('P0', 'mB')], ['A'], choices=ch,
+                        metrics=[('mA', 'P1', d, r, t), ('mB', 'P1', d, r, t), ('mC', 'P1', d, r, t)],
+                        label=f'met-two-parents-{i}'))
+    # three linked discrete design-variable nodes with a narrower one in the middle of the constraint order
+    out.append(Desc(base_nodes, base_edges, ['A'], choices=ch, constraints=[('LINKED', ['dl1', 'dl2', 'dl3'])],
+                    dvs=[('dl1', 'B', None, ['a', 'b', 'c', 'd', 'e']), ('dl2', 'A', None, ['u', 'v']),
+                         ('dl3', 'B', None, ['p', 'q', 'r', 's', 't'])], label='dv-linked-three-narrow-middle'))
+    out.append(Desc(base_nodes, base_edges, ['A'], choices=ch, constraints=[('LINKED', ['dl1', 'dl2', 'dl3'])],
+                    dvs=[('dl1', 'B', None, ['a', 'b']), ('dl2', 'A', None, ['u', 'v', 'w', 'x']),
+                         ('dl3', 'B', None, ['p', 'q', 'r'])], label='dv-linked-three-narrow-first'))
     return out
 
 
